@@ -357,9 +357,17 @@ def run_filepool(plan, tmpdir):
     if plan.get("relative_paths"):
         os.chdir(tmpdir)        # this process is the private child of one run
         paths = [os.path.basename(p_) for p_ in paths]
-    if plan.get("dev_null_at") is not None:
+    import stat
+
+    def is_char_device(pth):
+        try:
+            return stat.S_ISCHR(os.stat(pth).st_mode)
+        except OSError:
+            return False
+    # the device files are used only where the platform has them (otherwise the run is an ordinary one)
+    if plan.get("dev_null_at") is not None and is_char_device("/dev/null"):
         paths[plan["dev_null_at"]] = "/dev/null"
-    if plan.get("dev_full_at") is not None:
+    if plan.get("dev_full_at") is not None and is_char_device("/dev/full"):
         paths[plan["dev_full_at"]] = "/dev/full"
     handed = []
     enospc = [0]
@@ -412,7 +420,7 @@ def run_filepool(plan, tmpdir):
             raised = e
         except OSError as e:
             import errno
-            if plan.get("dev_full_at") is not None and e.errno == errno.ENOSPC:
+            if "/dev/full" in paths and e.errno == errno.ENOSPC:
                 raised = e      # the injected full disk surfaced while the handles were closed: legitimate
                 enospc[0] += 1
             else:
